@@ -529,7 +529,7 @@ func c01GenServer(r *vfRand, filtNum int, adv bool) c01Server {
 			rule.HostRegexp = c01Pick(r, c01HostREs)
 		default:
 		}
-		if i > 0 && r.Chance(1, 3) { // same host as the previous rule: later rules are reachable
+		if i > 0 && (r.Chance(1, 3) || (adv && r.Chance(1, 2))) { // same host as the previous rule: later rules are reachable
 			rule.Host, rule.HostRegexp = s.Rules[i-1].Host, s.Rules[i-1].HostRegexp
 		}
 		rule.Filter = c01GenFilter(r, filtNum, 10)
